@@ -259,6 +259,14 @@ def check_dup(chk, prog, summ, f, nullable):
                     for x in classinfo.owned_fields(d):
                         if x not in owned:
                             owned.append(x)
+    # after a whole-struct copy every pointer field of the copy refers to the ORIGINAL's storage, owned or not (a list's
+    # tail, for one): all pointer fields of the record are subject to D2 in a function that copies the struct wholesale
+    if any(X.callee_name(c) in ("memcpy", "memmove", "__builtin_memcpy") for c in X.calls_in(f.body)):
+        rj = prog.records.get(rec or "")
+        if rj:
+            for fld in rj["fields"]:
+                if fld.get("tp") and fld["n"] not in owned and fld["n"] not in ("cls", "parent"):
+                    owned.append(fld["n"])
     self_d = f.params[0]["d"]
     # D1: returned expression
     for n in walk(f.body):
@@ -278,6 +286,32 @@ def check_dup(chk, prog, summ, f, nullable):
             if v.get("k") == "ref" and v.get("rk") == "local":
                 result_vars.add(v["d"])
 
+    # locals that only ever point at nodes of the copy: initialised from a field of the result object and advanced along it
+    copy_cursors = set()
+    changed_ = True
+    while changed_:
+        changed_ = False
+        for n_ in walk(f.body):
+            if n_.get("k") == "assign" and n_.get("op") == "=":
+                l_, r_ = X.strip(n_["ch"][0]), X.strip(n_["ch"][1])
+                if l_.get("k") == "ref" and l_.get("rk") == "local" and l_["d"] not in copy_cursors and r_ is not None:
+                    b_ = r_
+                    while b_ is not None and b_.get("k") == "member":
+                        b_ = X.strip(b_["ch"][0])
+                    if b_ is not None and b_.get("k") == "ref" and (b_.get("d") in result_vars or b_.get("d") in copy_cursors) and r_.get("k") == "member":
+                        copy_cursors.add(l_["d"])
+                        changed_ = True
+    for n_ in walk(f.body):
+        # a cursor that is also assigned something else (a node of self) is not a pure copy cursor
+        if n_.get("k") == "assign" and n_.get("op") == "=":
+            l_, r_ = X.strip(n_["ch"][0]), X.strip(n_["ch"][1])
+            if l_.get("k") == "ref" and l_.get("d") in copy_cursors and r_ is not None:
+                b_ = r_
+                while b_ is not None and b_.get("k") == "member":
+                    b_ = X.strip(b_["ch"][0])
+                if not (b_ is not None and b_.get("k") == "ref" and (b_.get("d") in result_vars or b_.get("d") in copy_cursors)) and not X.is_null_const(n_["ch"][1]):
+                    copy_cursors.discard(l_["d"])
+
     def is_self_expr(e):
         for x in walk(e):
             if x.get("k") == "ref" and x.get("rk") == "param" and x.get("d") == self_d:
@@ -294,6 +328,8 @@ def check_dup(chk, prog, summ, f, nullable):
             return fresh_rhs(s["ch"][1], state) and fresh_rhs(s["ch"][2], state)
         if s.get("k") == "ref" and s.get("rk") == "local" and ("freshvar", s["d"]) in state:
             return True           # a temporary that holds a fresh allocation (tmp = MALLOC(..); copy->f = tmp;)
+        if s.get("k") == "ref" and s.get("rk") == "local" and s["d"] in copy_cursors:
+            return True           # a cursor over the copy's own nodes (dest = tmp->head; dest = dest->next)
         return False
 
     def transfer(state, n, blk):
@@ -344,9 +380,19 @@ def check_dup(chk, prog, summ, f, nullable):
                 if ("null", "%s->%s" % (selfp, fld)) in state:
                     continue   # the original holds NULL there: nothing to alias
                 bad.setdefault(fld, n)
+    def refine2(state, cond, truth, blk):
+        st = nullness.refine(state, cond, truth, blk)
+        if st is None:
+            return None
+        # on a branch where the original's field is NULL the (copied) field of the result is NULL too: nothing is shared
+        add = set()
+        for fld in owned:
+            if ("null", "%s->%s" % (selfp, fld)) in st and ("null", "%s->%s" % (selfp, fld)) not in state:
+                add.add(("fresh", fld))
+        return frozenset(st) | add if add else st
     if owned and cfg is not None:
         seed = frozenset(("nn", "d%d" % p["d"]) for p in f.params if p.get("tp"))
-        flow.forward(cfg, seed, transfer, refine=nullness.refine, visit=visit)
+        flow.forward(cfg, seed, transfer, refine=refine2, visit=visit)
     for fld in owned:
         n = bad.get(fld)
         chk.ob("D2", f.name, "deep-copy:" + fld, n is None, loc=f.loc(n) if n else loc,
